@@ -1,11 +1,343 @@
-(* Props/C05.v — property C05 (line-number programs).  UNDER CONSTRUCTION. *)
-From PV Require Import Spec.C05Line Spec.C05Header Model.C05Kinds Model.C05Header Gen.C05Tables Proofs.C05Tables.
+(* Props/C05.v — property C05: line-number programs execute to the rows the DWARF state machine
+   prescribes; header tables decode to the encoded ones; decoding consumes exactly the declared
+   extent; the program attached to a unit is the one DW_AT_stmt_list designates.
+   Only statements, closed by [exact]; proofs live in Proofs/C05*.v.
+
+   Spec  (written from DWARF 2-5, section 6.2): Spec/C05Line.v   registers, step_spec, rows_spec,
+         enc_instr/enc_prog = ALL valid encodings (any LEB128 padding, any length encoding);
+         Spec/C05Header.v  lheader, enc_body/enc_unit, expected_view (what a consumer must see).
+   Model (transliteration of the Python): Model/C05LineProgram.v  LineProgram._decode_line_program;
+         Model/C05Header.v  Dwarf_lineprog_header, FormattedEntry, _parse_line_program_at_offset
+         (resolve_strings, legacy tables), line_program_for_CU and _linetable_cache, get_entries.
+   Gen   Gen/C05Tables.v  DW_LNS_*/DW_LNE_* constants, ENUM_DW_LNCT, value -> (name, parser) of
+         ENUM_DW_FORM x Dwarf_dw_form, regenerated from the live modules on every run. *)
+From PV Require Import Base.Outcome Base.Prim Spec.PrimSpec Spec.C05Line Spec.C05Header
+  Model.C05Kinds Model.C05LineProgram Model.C05Header Gen.C05Tables
+  Proofs.C05Leb Proofs.C05Tables Proofs.C05Machine Proofs.C05Header Proofs.C05Unit
+  Proofs.C05Program Proofs.C05Encoder.
 Open Scope list_scope.
 Open Scope Z_scope.
 
+(* ================================================================ 1. the code's tables *)
+(* An edit of a DW_LNS/DW_LNE/DW_LNCT number, of a form code, or of the parser bound to a form in
+   Dwarf_dw_form changes Gen/C05Tables.v and one of these stops compiling. *)
 Theorem C05_gen_lns_standard : tbl_c05_lns = spec_lns.
 Proof. exact gen_lns_standard. Qed.
 Print Assumptions C05_gen_lns_standard.
 
-Example C05_ex_placeholder : wf_params {| p_min_inst := 1; p_max_ops := 1; p_default_is_stmt := 1; p_line_base := -5; p_line_range := 14; p_opcode_base := 13 |} = true.
-Proof. reflexivity. Qed.
+Theorem C05_gen_lne_standard : tbl_c05_lne = spec_lne.
+Proof. exact gen_lne_standard. Qed.
+Print Assumptions C05_gen_lne_standard.
+
+Theorem C05_gen_lnct_standard : tbl_c05_lnct = spec_lnct /\ c05_lnct_default = false.
+Proof. exact gen_lnct_standard. Qed.
+Print Assumptions C05_gen_lnct_standard.
+
+(* the constants _decode_line_program branches on are the standard's opcode numbers *)
+Theorem C05_gen_opcode_constants :
+  [DW_LNS_copy; DW_LNS_advance_pc; DW_LNS_advance_line; DW_LNS_set_file; DW_LNS_set_column;
+   DW_LNS_negate_stmt; DW_LNS_set_basic_block; DW_LNS_const_add_pc; DW_LNS_fixed_advance_pc;
+   DW_LNS_set_prologue_end; DW_LNS_set_epilogue_begin; DW_LNS_set_isa] = map snd spec_lns /\
+  [DW_LNE_end_sequence; DW_LNE_set_address; DW_LNE_define_file; DW_LNE_set_discriminator] =
+  firstn 4 (map snd spec_lne).
+Proof. exact gen_opcode_constants. Qed.
+Print Assumptions C05_gen_opcode_constants.
+
+(* every form of the property's domain: its code maps to its standard name and to the parser the
+   standard's encoding of that form needs (DWARF 5, 7.5.6) *)
+Theorem C05_gen_forms_standard : forall f,
+  form_lookup tbl_c05_forms (lform_code f) = Some (spec_form_name f, spec_form_kind f).
+Proof. exact gen_forms_standard. Qed.
+Print Assumptions C05_gen_forms_standard.
+
+(* ================================================================ 2. the state machine *)
+(* one iteration of the decoding loop on ANY valid encoding [e] of instruction [i], followed by
+   anything: consumes exactly [e] and does what the standard's step does to the registers, emits
+   the row the standard emits (or none), records the file DW_LNE_define_file defines.
+   [apnd] = header['file_entry'] is a list (versions 2-4); DW_LNE_define_file needs it. *)
+Theorem C05_step : forall c p apnd, wf_params p = true -> forall st i e tail,
+  enc_instr c p i e -> (apnd = true \/ defined_files [i] = []) ->
+  exists o, lp_step c p apnd st (e ++ tail) = Ok o /\
+    o_rest o = tail /\ o_consumed o = zlen e /\
+    regs_of (o_state o) = fst (step_spec p (regs_of st) i) /\
+    map regs_of (entry_states (o_entries o)) = opt_list (snd (step_spec p (regs_of st) i)) /\
+    o_files o = defined_files [i].
+Proof. exact lp_step_sound. Qed.
+Print Assumptions C05_step.
+
+(* instruction decoding: a program of any length lying at [start, end) of a stream is decoded
+   instruction by instruction, the loop stops exactly at the declared end (distance 0), leaves the
+   stream at the first byte after the program, never runs out of fuel, and the states of the
+   row-emitting entries are the standard's line table *)
+Theorem C05_decode_instrs : forall c p apnd, wf_params p = true -> forall prog bs pre tail,
+  enc_prog c p prog bs -> (apnd = true \/ defined_files prog = []) ->
+  exists es,
+    decode_line_program c p apnd (pre ++ bs ++ tail) (zlen pre) (zlen pre + zlen bs)
+      = Ok (es, defined_files prog, 0, tail) /\
+    map regs_of (entry_states es) = rows_spec p prog.
+Proof. exact decode_line_program_sound. Qed.
+Print Assumptions C05_decode_instrs.
+
+(* rows_equal: for EVERY header parameter set in the property's domain (opcode_base 1..255,
+   line_range 1..255, line_base -128..127, any min_inst, max_ops 1..255), both byte orders and
+   address sizes, and EVERY instruction list with every valid encoding of it, the rows of the
+   model are the rows of the standard's machine (all twelve registers) *)
+Theorem C05_rows_equal : forall c p apnd, wf_params p = true -> forall prog bs pre tail,
+  enc_prog c p prog bs -> (apnd = true \/ defined_files prog = []) ->
+  rows_model c p apnd (pre ++ bs ++ tail) (zlen pre) (zlen pre + zlen bs) = Ok (rows_spec p prog).
+Proof. exact rows_equal. Qed.
+Print Assumptions C05_rows_equal.
+
+(* the relation is inhabited by the executable encoder the correspondence uses: any instruction
+   list passing the boolean check, any padding choice *)
+Theorem C05_encoder_in_relation : forall c p (prog : list (instr * nat * nat)),
+  wf_prog c p (map (fun x => fst (fst x)) prog) = true ->
+  enc_prog c p (map (fun x => fst (fst x)) prog) (encode_prog c prog).
+Proof. exact wf_prog_enc. Qed.
+Print Assumptions C05_encoder_in_relation.
+
+(* ================================================================ 3. the header *)
+(* Dwarf_lineprog_header on any valid encoding of a header (versions 2-5, 32/64-bit format, v5
+   directory/file formats over string, line_strp, strp, udata, data1/2/4/8/16, block) followed by
+   its program and anything else: every field is the encoded one, the stream is left at the first
+   program byte.  raw_view = the Container before resolve_strings (string offsets still numbers). *)
+Theorem C05_header_parse : forall s h body prog t,
+  wf_header h = true -> ms_is64 s = h_is64 h -> enc_body (ms_le s) h body ->
+  sizes_ok (h_is64 h) (zlen (unit_rest (ms_le s) h body prog)) (zlen body) = true ->
+  parse_header s (unit_bytes (ms_le s) h body prog ++ t) =
+  Ok {| rh_view := raw_view h (zlen (unit_rest (ms_le s) h body prog)) (zlen body);
+        rh_rest := prog ++ t |}.
+Proof. exact parse_header_valid. Qed.
+Print Assumptions C05_header_parse.
+
+(* enc_unit is unit_bytes for some valid body *)
+Theorem C05_enc_unit_bytes : forall le h prog e,
+  enc_unit le h prog e <-> exists body, enc_body le h body /\ e = unit_bytes le h body prog.
+Proof. exact enc_unit_bytes. Qed.
+Print Assumptions C05_enc_unit_bytes.
+
+(* resolve_strings: line_strp/strp offsets are replaced by the strings found there, every other
+   field is kept, field order is kept *)
+Theorem C05_resolve_strings : forall secs fmt entries,
+  nodupb (map fst fmt) = true -> forallb (forms_match fmt) entries = true ->
+  Forall (Forall (refs_present (sec_line_str secs) (sec_str secs))) entries ->
+  resolve_strings secs (Some (format_view fmt)) (Some (map (raw_entry fmt) entries))
+  = Ok (Some (map (entry_view fmt) entries)).
+Proof. exact resolve_strings_valid. Qed.
+Print Assumptions C05_resolve_strings.
+
+(* header_roundtrip: _parse_line_program_at_offset on a unit lying anywhere in .debug_line gives
+   the view the standard prescribes (decoded tables = encoded tables, v5 strings resolved,
+   include_directory/file_entry in the legacy shape for every version) and the program extent
+   [first program byte, offset + unit_length + size of the initial length) *)
+Theorem C05_header_roundtrip : forall secs s h body prog pre tail,
+  wf_header h = true -> ms_is64 s = h_is64 h -> enc_body (ms_le s) h body ->
+  sizes_ok (h_is64 h) (zlen (unit_rest (ms_le s) h body prog)) (zlen body) = true ->
+  sec_line secs = pre ++ unit_bytes (ms_le s) h body prog ++ tail ->
+  Forall (Forall (refs_present (sec_line_str secs) (sec_str secs))) (h_dirs h) ->
+  Forall (Forall (refs_present (sec_line_str secs) (sec_str secs))) (h_file_names h) ->
+  parse_line_program_uncached secs (zlen pre) s =
+  Ok {| lp_header := expected_view h (zlen (unit_rest (ms_le s) h body prog)) (zlen body);
+        lp_start := zlen pre + zlen (unit_bytes (ms_le s) h body prog) - zlen prog;
+        lp_end := zlen pre + zlen (unit_bytes (ms_le s) h body prog);
+        lp_structs := s |}.
+Proof. exact parse_line_program_valid. Qed.
+Print Assumptions C05_header_roundtrip.
+
+(* the whole property on one unit: header as encoded, and get_entries() on the program object
+   decodes exactly the unit's program extent to the standard's rows *)
+Theorem C05_unit_rows : forall secs s h body prog pre tail,
+  wf_header h = true -> ms_is64 s = h_is64 h -> enc_body (ms_le s) h body ->
+  sizes_ok (h_is64 h) (zlen (unit_rest (ms_le s) h body prog)) (zlen body) = true ->
+  sec_line secs = pre ++ unit_bytes (ms_le s) h body prog ++ tail ->
+  Forall (Forall (refs_present (sec_line_str secs) (sec_str secs))) (h_dirs h) ->
+  Forall (Forall (refs_present (sec_line_str secs) (sec_str secs))) (h_file_names h) ->
+  forall instrs, enc_prog (cfg_of s) (h_params h) instrs prog ->
+  (h_version h < 5 \/ defined_files instrs = []) ->
+  exists lp es,
+    parse_line_program_uncached secs (zlen pre) s = Ok lp /\
+    lp_header lp = expected_view h (zlen (unit_rest (ms_le s) h body prog)) (zlen body) /\
+    lp_start lp = zlen pre + zlen (unit_bytes (ms_le s) h body prog) - zlen prog /\
+    lp_end lp = zlen pre + zlen (unit_bytes (ms_le s) h body prog) /\
+    get_entries secs lp = Ok (es, defined_files instrs, 0, tail) /\
+    map regs_of (entry_states es) = rows_spec (h_params h) instrs.
+Proof. exact unit_rows. Qed.
+Print Assumptions C05_unit_rows.
+
+(* the executable header encoder is inside the encoding relation *)
+Theorem C05_header_encoder_in_relation : forall le k h prog,
+  wf_header h = true -> wf_header_values h = true -> enc_unit le h prog (encode_unit le k h prog).
+Proof. exact encode_unit_enc. Qed.
+Print Assumptions C05_header_encoder_in_relation.
+
+(* what the driver checks for a generated unit (wf_header, wf_prog, sizes) implies the hypotheses
+   of C05_unit_rows, with the expected view the driver hands to the harness *)
+Theorem C05_checked_unit_rows : forall secs s h k (progk : list (instr * nat * nat)) ls st pre tail,
+  let le := ms_le s in
+  let instrs := map (fun x => fst (fst x)) progk in
+  let prog := encode_prog (cfg_of s) progk in
+  let e := encode_unit le k h prog in
+  wf_header h && wf_header_values h && header_refs_ok_b ls st h = true ->
+  wf_prog (cfg_of s) (h_params h) instrs = true ->
+  sizes_ok (h_is64 h) (unit_length_of le k h prog) (header_length_of le k h) = true ->
+  ms_is64 s = h_is64 h ->
+  sec_line secs = pre ++ e ++ tail -> sec_line_str secs = Some ls -> sec_str secs = Some st ->
+  zlen ls < 2 ^ 63 -> zlen st < 2 ^ 63 ->
+  (h_version h < 5 \/ defined_files instrs = []) ->
+  exists lp es,
+    parse_line_program_uncached secs (zlen pre) s = Ok lp /\
+    lp_header lp = expected_view h (unit_length_of le k h prog) (header_length_of le k h) /\
+    lp_start lp = zlen pre + zlen e - zlen prog /\ lp_end lp = zlen pre + zlen e /\
+    get_entries secs lp = Ok (es, defined_files instrs, 0, tail) /\
+    map regs_of (entry_states es) = rows_spec (h_params h) instrs.
+Proof. exact checked_unit_rows. Qed.
+Print Assumptions C05_checked_unit_rows.
+
+(* ================================================================ 4. the program of a unit *)
+(* line_program_for_CU returns the program parsed at the offset DW_AT_stmt_list holds, whatever
+   was looked up before (cache hit or miss), and keeps the cache coherent *)
+Theorem C05_program_for_unit : forall secs cache cu off lp,
+  cache_coherent secs (cu_structs cu) cache ->
+  attr_get (cu_top_attrs cu) "DW_AT_stmt_list" = Some off ->
+  parse_line_program_uncached secs off (cu_structs cu) = Ok lp ->
+  exists cache', line_program_for_CU secs cache cu = Ok (Some lp, cache') /\
+                 cache_coherent secs (cu_structs cu) cache' /\ cache_get cache' off = Some lp.
+Proof. exact program_for_unit. Qed.
+Print Assumptions C05_program_for_unit.
+
+Theorem C05_program_for_unit_none : forall secs cache cu,
+  attr_get (cu_top_attrs cu) "DW_AT_stmt_list" = None ->
+  line_program_for_CU secs cache cu = Ok (None, cache).
+Proof. exact program_for_unit_none. Qed.
+Print Assumptions C05_program_for_unit_none.
+
+(* ================================================================ non-vacuity *)
+(* a VLIW header (4 operations per instruction) and a program using standard, extended, unknown
+   extended and special opcodes with padded LEB128 operands, two sequences *)
+(* an instruction with its encoding choices: k padding bytes on LEB128 operands, kl on the length *)
+Definition pk (i : instr) (k kl : nat) : instr * nat * nat := (i, k, kl).
+Definition ex_cfg : lcfg := {| c_le := true; c_addr_size := 8 |}.
+Definition ex_params : lparams :=
+  {| p_min_inst := 4; p_max_ops := 4; p_default_is_stmt := 1; p_line_base := -5; p_line_range := 14;
+     p_opcode_base := 13 |}.
+Definition ex_prog : list (instr * nat * nat) :=
+  [pk (IAdvancePc 3) 1 0; pk (ICopy) 0 0; pk (ISpecial 27) 0 0; pk (IFixedAdvancePc 8) 0 0; pk (ICopy) 0 0;
+   pk (IDefineFile [102; 46; 99] 1 2 300) 2 1; pk (IExtUnknown 128 [1; 2; 3]) 0 2; pk (ISetDiscriminator 5) 1 0;
+   pk (IConstAddPc) 0 0; pk (INegateStmt) 0 0; pk (IAdvanceLine (-70)) 3 0; pk (ISpecial 255) 0 0;
+   pk (IEndSequence) 0 1; pk (ISetAddress 4096) 0 0; pk (ISetPrologueEnd) 0 0; pk (ISpecial 13) 0 0;
+   pk (IEndSequence) 0 0].
+Definition ex_instrs : list instr := map (fun x => fst (fst x)) ex_prog.
+
+Example C05_ex_prog_in_domain : wf_params ex_params && wf_prog ex_cfg ex_params ex_instrs = true.
+Proof. vm_compute. reflexivity. Qed.
+
+(* the instance of C05_rows_equal, evaluated: garbage before and after the program *)
+Example C05_ex_rows_equal :
+  let bs := encode_prog ex_cfg ex_prog in
+  rows_model ex_cfg ex_params true ([9; 9; 9] ++ bs ++ [7; 7]) 3 (3 + zlen bs) = Ok (rows_spec ex_params ex_instrs)
+  /\ length (rows_spec ex_params ex_instrs) = 7%nat.
+Proof. vm_compute. split; reflexivity. Qed.
+
+(* 6.2.5.1 on a VLIW header: advance_pc 3 from (address 0, op_index 0) gives (0, 3); special opcode
+   27 (operation advance 1) wraps to (4, 0); fixed_advance_pc resets op_index *)
+Example C05_ex_vliw_rows :
+  map (fun r => (r_address r, r_op_index r, r_line r)) (firstn 3 (rows_spec ex_params ex_instrs))
+  = [(0, 3, 1); (4, 0, 1 + (-5 + 0)); (12, 0, -4)].
+Proof. vm_compute. reflexivity. Qed.
+
+(* a version 5 unit, 64-bit DWARF, big endian: directory entries by line_strp, file names with an
+   inline string, a udata directory index, an MD5 and a strp'd vendor field *)
+Definition ex_line_str : list Z := [47; 117; 0; 47; 115; 114; 99; 0].       (* "/u" "/src" *)
+Definition ex_str : list Z := [0; 120; 121; 0].                            (* "" "xy" *)
+Definition ex_header5 : lheader :=
+  {| h_is64 := true; h_version := 5; h_address_size := 8; h_seg_sel_size := 0;
+     h_params := ex_params; h_std_lengths := [0; 1; 1; 1; 1; 0; 0; 0; 1; 0; 0; 1];
+     h_include_dirs := []; h_files := [];
+     h_dir_format := [(1, LF_line_strp)];
+     h_dirs := [[FV_line_strp 0 [47; 117]]; [FV_line_strp 4 [115; 114; 99]]];
+     h_file_format := [(1, LF_string); (2, LF_udata); (5, LF_data16); (0x2001, LF_strp)];
+     h_file_names := [[FV_string [97; 46; 99]; FV_udata 1; FV_data16 (repeat 171 16); FV_strp 1 [120; 121]];
+                      [FV_string [98]; FV_udata 300; FV_data16 (repeat 1 16); FV_strp 0 []]] |}.
+Definition ex_structs5 : mstructs := {| ms_le := false; ms_is64 := true; ms_addr := 8 |}.
+Definition ex_prog5 : list (instr * nat * nat) :=
+  [pk (ISetAddress 65536) 0 0; pk (ISpecial 100) 0 0; pk (IAdvancePc 9) 0 0; pk (IEndSequence) 0 0].
+
+(* the boolean hypotheses of C05_checked_unit_rows hold for it *)
+Example C05_ex_unit5_in_domain :
+  let prog := encode_prog (cfg_of ex_structs5) ex_prog5 in
+  wf_header ex_header5 && wf_header_values ex_header5 && header_refs_ok_b ex_line_str ex_str ex_header5 = true /\
+  wf_prog (cfg_of ex_structs5) ex_params (map (fun x => fst (fst x)) ex_prog5) = true /\
+  sizes_ok true (unit_length_of false 1 ex_header5 prog) (header_length_of false 1 ex_header5) = true.
+Proof. vm_compute. repeat split; reflexivity. Qed.
+
+(* and the instance, evaluated: the unit at offset 2 of .debug_line *)
+Example C05_ex_unit5 :
+  let prog := encode_prog (cfg_of ex_structs5) ex_prog5 in
+  let e := encode_unit false 1 ex_header5 prog in
+  let secs := {| sec_line := [5; 5] ++ e ++ [6]; sec_line_str := Some ex_line_str; sec_str := Some ex_str |} in
+  match parse_line_program_uncached secs 2 ex_structs5 with
+  | Ok lp =>
+      lp_header lp = expected_view ex_header5 (unit_length_of false 1 ex_header5 prog) (header_length_of false 1 ex_header5)
+      /\ v_include_directory (lp_header lp) = [DBytes [47; 117]; DBytes [115; 114; 99]]
+      /\ lp_end lp = 2 + zlen e
+      /\ match get_entries secs lp with
+         | Ok (es, fs, rem, rest) =>
+             map regs_of (entry_states es) = rows_spec ex_params (map (fun x => fst (fst x)) ex_prog5)
+             /\ length (entry_states es) = 2%nat /\ rem = 0 /\ rest = [6]
+         | Err _ => False
+         end
+  | Err _ => False
+  end.
+Proof. vm_compute. repeat split; reflexivity. Qed.
+
+(* a version 3 unit with legacy tables whose program defines a file *)
+Definition ex_header3 : lheader :=
+  {| h_is64 := false; h_version := 3; h_address_size := 0; h_seg_sel_size := 0;
+     h_params := {| p_min_inst := 1; p_max_ops := 1; p_default_is_stmt := 0; p_line_base := -3;
+                    p_line_range := 12; p_opcode_base := 10 |};
+     h_std_lengths := [0; 1; 1; 1; 1; 0; 0; 0; 1];
+     h_include_dirs := [[100; 49]; [100; 50]];
+     h_files := [{| fe_name := [97]; fe_dir := 1; fe_mtime := 0; fe_length := 128 |}];
+     h_dir_format := []; h_dirs := []; h_file_format := []; h_file_names := [] |}.
+Definition ex_structs3 : mstructs := {| ms_le := true; ms_is64 := false; ms_addr := 4 |}.
+Definition ex_prog3 : list (instr * nat * nat) :=
+  [pk (IDefineFile [98] 2 0 0) 0 0; pk (ISetFile 2) 0 0; pk (ISpecial 10) 0 0; pk (ISpecial 200) 0 0;
+   pk (IEndSequence) 0 0].
+
+Example C05_ex_unit3 :
+  let prog := encode_prog (cfg_of ex_structs3) ex_prog3 in
+  let e := encode_unit true 0 ex_header3 prog in
+  let secs := {| sec_line := e; sec_line_str := None; sec_str := None |} in
+  wf_header ex_header3 && wf_header_values ex_header3 && header_refs_ok_b [] [] ex_header3 = true /\
+  wf_prog (cfg_of ex_structs3) (h_params ex_header3) (map (fun x => fst (fst x)) ex_prog3) = true /\
+  match parse_line_program_uncached secs 0 ex_structs3 with
+  | Ok lp =>
+      lp_header lp = expected_view ex_header3 (unit_length_of true 0 ex_header3 prog) (header_length_of true 0 ex_header3)
+      /\ match get_entries secs lp with
+         | Ok (es, fs, rem, rest) =>
+             map regs_of (entry_states es) = rows_spec (h_params ex_header3) (map (fun x => fst (fst x)) ex_prog3)
+             /\ fs = [{| fe_name := [98]; fe_dir := 2; fe_mtime := 0; fe_length := 0 |}]
+             /\ length (entry_states es) = 3%nat /\ rem = 0
+         | Err _ => False
+         end
+  | Err _ => False
+  end.
+Proof. vm_compute. repeat split; reflexivity. Qed.
+
+(* with opcode_base 10, byte 10 is the first special opcode and byte 9 still DW_LNS_fixed_advance_pc:
+   standard opcodes >= opcode_base do not exist under such a header *)
+Example C05_ex_small_opcode_base :
+  wf_instr (cfg_of ex_structs3) (h_params ex_header3) ISetPrologueEnd = false /\
+  wf_instr (cfg_of ex_structs3) (h_params ex_header3) (ISpecial 10) = true.
+Proof. split; reflexivity. Qed.
+
+(* the cache: two units pointing at the same offset get the same program object *)
+Example C05_ex_cache :
+  let prog := encode_prog (cfg_of ex_structs3) ex_prog3 in
+  let secs := {| sec_line := encode_unit true 0 ex_header3 prog; sec_line_str := None; sec_str := None |} in
+  let cu := {| cu_structs := ex_structs3; cu_top_attrs := [("DW_AT_stmt_list"%string, 0)] |} in
+  match line_program_for_CU secs [] cu with
+  | Ok (Some lp, cache) => line_program_for_CU secs cache cu = Ok (Some lp, cache) /\ length cache = 1%nat
+  | _ => False
+  end.
+Proof. vm_compute. split; reflexivity. Qed.
